@@ -90,7 +90,13 @@ func (run *sRun) crashPoints() []sCrashPt {
 				if c.CrashOps == "drop" && (e.Tag >= len(c.Ops) || c.Ops[e.Tag].K != "dropm") {
 					continue
 				}
+				if c.CrashOps == "wal" && !(e.Kind == simfs.KWrite && strings.HasPrefix(e.Path, "wal/")) {
+					continue
+				}
 				key = fmt.Sprintf("%d|%d|%s", e.Tag, e.Kind, simfs.PathClass(e.Path))
+				if c.CrashOps == "wal" {
+					key = fmt.Sprintf("rec%d", k) // every log record is its own class
+				}
 			} else {
 				if c.CrashOps != "" {
 					continue
@@ -101,6 +107,14 @@ func (run *sRun) crashPoints() []sCrashPt {
 				order = append(order, key)
 			}
 			classes[key] = append(classes[key], k)
+		}
+		if c.CrashOps == "wal" && c.MaxWalRec > 0 && len(order) > c.MaxWalRec {
+			sel := run.r.Sample(len(order), c.MaxWalRec)
+			no := make([]string, 0, len(sel))
+			for _, i := range sel {
+				no = append(no, order[i])
+			}
+			order = no
 		}
 		for _, key := range order {
 			ks := classes[key]
@@ -120,8 +134,25 @@ func (run *sRun) crashPoints() []sCrashPt {
 			for _, k := range sel {
 				pts = append(pts, sCrashPt{inc, k, -1})
 				if k < len(j) {
-					tv := tornVariants(j[k], run.r, run.prop == "C07")
-					if c.PerClass > 0 && len(tv) > 2 && run.prop != "C07" {
+					tv := tornVariants(j[k], run.r, c.CrashOps == "wal")
+					if c.CrashOps == "wal" {
+						if c.TornPer > 0 && len(tv) > c.TornPer {
+							// header boundaries always, the rest seeded
+							keep := map[int]bool{1: true, 4: true, 5: true, 6: true, len(j[k].Data) - 1: true}
+							for _, x := range run.r.Sample(len(tv), c.TornPer) {
+								keep[tv[x]] = true
+							}
+							ntv := tv[:0:0]
+							for _, t := range tv {
+								if keep[t] {
+									ntv = append(ntv, t)
+								}
+							}
+							tv = ntv
+						} else if c.TornPer == 0 {
+							run.out.Probes["every prefix of a log record tried"]++
+						}
+					} else if c.PerClass > 0 && len(tv) > 2 {
 						// keep two seeded variants per selected write
 						a := run.r.Intn(len(tv))
 						b := run.r.Intn(len(tv))
